@@ -70,7 +70,7 @@ CHECKS = {
         "Select, SelectRowid, IndexedSelect, IndexedSelectEq, PKSelect with the sqlite_master read, the nested rowid / primary key lookup per index entry and the row mapping all through the faulty pager, "
         "any schema record, any callback whose state only grows (C12_select, C12_select_rowid, C12_indexed_select, C12_indexed_select_eq, C12_pk_select; Proofs/FaultHighP.v), and the same end to end with the schema record itself computed from the file through the faulty pager (C12_e2e_*). Every run: the k-th physical read of every "
         "operation (low level and high level, incl. the nested lookups of the indexed selects) fails, for every k up to the fault-free read count, as I/O error and as short read; "
-        "the verdict is the property predicate itself; always-failing pages are run through the extracted model and the implementation.",
+        "the verdict is the property predicate itself; the same call repeated on the same handle after the fault must not silently differ; always-failing pages are run through the extracted model and the implementation.",
    note="The from-key operations have their own simulation proof (Proofs/FaultMinP.v): Index.ScanMin / ScanRange / ScanEq with any callback whose collected rows only grow (C12_scan_min, "
         "C12_scan_range, C12_scan_eq, C12_collectors_grow) and Table.Rowid (C12_rowid: the fault-free answer or an error) under any set of failing reads, the error-remembering bisection "
         "included. The high level theorems are a simulation with two callbacks (the faulty run's nested lookup may itself fail earlier than the fault-free run's): "
@@ -113,7 +113,7 @@ CHECKS = {
         "_utf16, _reserved, _schema_format, _magic, _pagesize); the fields that do not affect reading may hold any value (C15_dont_care, over bytes 24..43, 48..55, 60..71, 92..99); the offsets, widths and byte order the model reads "
         "the fields with are those of the struct parseHeader decodes the 100 bytes into, translated from db/database.go on every build (C15_source_layout, C15_source_fields_modelled). "
         "Every run: every header byte x every value on SQLite-written headers, all 65536 page-size field values, real files of every legal page size end to end, real WAL (unmerged "
-        "content) / UTF-16 files, and the header rewritten under an open handle between transactions and between open and the handle's first transaction (every call of the transaction must fail).",
+        "content) / UTF-16 files, and the header rewritten under an open handle between transactions and between open and the handle's first transaction (every call of the transaction must fail). Also after a transaction whose read lock was refused.",
    note="Schema format 1 and 0, fractions other than 64/32/32, non-zero expansion bytes and text encodings other than 1..3 are left open by the property: sqlittle refuses them, the check does not judge them. "
         "Re-validation at every transaction is checked on the code (harness sequences); its model (resolveDirty) is part of C08's state machine.",
    technique="Coq proof (characterisation of the accepted headers) + exhaustive single-byte sweep differential",
@@ -140,7 +140,7 @@ CHECKS = {
         "requests - any sequence, hence any operation - are answered exactly as an uncached reader of the then-current committed image would answer them (C08_coherent, C08_txn, "
         "C08_from_open), repeated reads are identical (C08_idempotent), the cached sqlite_master is the current one (C08_master); an unacceptable header or a hot journal fails every "
         "call (C08_bad_header, C08_hot_journal). Hypothesis 'protocol': committed images with equal change counters are equal, with equal cookies have equal sqlite_master. "
-        "Every run: random histories on one long-lived handle against real SQLite writers (DML, DDL, growth, page reuse, root reuse, VACUUM incl. page-size change, before the first "
+        "Every run: random histories on one long-lived handle against real SQLite writers (DML, DDL, growth, page reuse, root reuse, VACUUM incl. page-size change, dropped columns, indexes re-created under their names, single-row updates; the handle's first calls after each commit are point lookups / indexed selects on the table just written; before the first "
         "read too), each read twice, databases below and above the cache size, in-memory pager (with the extracted state machine serving the model's pages) and real file pager.",
    note="The 2^32 wrap of the counters is outside the hypothesis (fewer than 2^32 commits between two reads). Which pages a traversal requests is determined by the answers, so per-request "
         "transparency gives per-operation equality; operations themselves are the pure functions of C01-C04. The file not changing during a transaction is C06.",
@@ -178,7 +178,7 @@ CHECKS = {
         "so every crash state is one of: hot journal, untouched file, committed file without a hot journal (C09_every_crash_state); the journal header fields the model reads are the struct validJournal decodes, "
         "translated from db/journal.go on every build (C09_source_journal_layout). Every run: a real SQLite writer that spills is killed on entering every pwrite64 / fdatasync / ftruncate / unlink on the "
         "two files (strace injection), torn writes are synthesised, DELETE / TRUNCATE / PERSIST, several page sizes, 512- and 4096-byte sectors; sqlittle must fail or return exactly what "
-        "real SQLite returns after recovering a copy; one handle across the crash; the refused states re-read while another process holds a SHARED lock (still refused); benign journals. The real writer's operation order is checked against the theorem's protocol automaton.",
+        "real SQLite returns after recovering a copy; one handle across the crash; the refused states re-read while another process holds a SHARED lock (still refused); after a crash met by a long-lived handle SQLite recovers in place and commits once more, the handle then reads SQLite's content; benign journals. The real writer's operation order is checked against the theorem's protocol automaton.",
    note="PARTIAL: process-kill semantics (completed writes persist in order); power-loss reordering is outside the property. That SQLite's recovery of a pair whose journal is not hot returns the "
         "file as it is, and that the file then is the pre- or post-image, is validated by the oracle on every crash state, not proved (the model's cmod / cdone flags stand for it).",
    technique="Coq proof (protocol automaton invariant over all crash prefixes and torn writes) + strace kill-at-every-syscall differential vs SQLite recovery",
